@@ -70,7 +70,9 @@ type Node struct {
 }
 
 // IsUniversal reports whether n is a universal-class node with the given tag number.
-func (n *Node) IsUniversal(tag int) bool { return n != nil && n.Class == ClassUniversal && n.Tag == tag }
+func (n *Node) IsUniversal(tag int) bool {
+	return n != nil && n.Class == ClassUniversal && n.Tag == tag
+}
 
 // IsContext reports whether n is a context-specific node with the given tag number.
 func (n *Node) IsContext(tag int) bool { return n != nil && n.Class == ClassContext && n.Tag == tag }
